@@ -18,6 +18,10 @@ func MinU64(a uint64, b uint64) uint64 {
 
 // The largest integer x such that x**2 is less than or equal to n.
 func IntegerSquareroot(n uint64) uint64 {
+	if n == ^uint64(0) {
+		// x + 1 below would wrap around to 0 (and then divide by zero); the root of 2**64-1 is 2**32-1.
+		return 4294967295
+	}
 	x := n
 	y := (x + 1) >> 1
 	for y < x {
